@@ -91,6 +91,10 @@ func (e *Engine) encodeFunction(name string) (fe *FuncEnc, err error) {
 			}
 		}
 	}
+	if fn.Name() == "init" || name == "main.main" {
+		// process start: nothing consumed from stdin yet
+		fe.assume(tBool(true), tAnd(tEq(fe.comp(st, "G_io_InPos", SInt), tInt(0)), tEq(fe.comp(st, "G_io_Delivered", SInt), tInt(0)), tLe(tInt(0), fe.comp(st, "G_io_InLines", SInt))))
+	}
 	fe.initMonitor(f, st)
 	// nothing runs after the process has exited
 	if e.modsetOf(fn)["G_io_Exited"] {
@@ -177,6 +181,26 @@ func (e *Engine) encodeFunction(name string) (fe *FuncEnc, err error) {
 				}
 			}
 		}
+	}
+	// frame over package-level variables: everything the function can write (transitively) must be declared
+	if fe.con != nil && fe.con.HasGlobals {
+		var extra []string
+		for c := range e.modsetOf(fn) {
+			if strings.HasPrefix(c, "G_") && !strings.HasPrefix(c, "G_io_") && !strings.HasSuffix(c, "_init_guard") && !contains(fe.con.Globals, c) {
+				extra = append(extra, c)
+			}
+		}
+		sort.Strings(extra)
+		goal := tBool(len(extra) == 0)
+		o := &Obl{Name: name + "/frame.globals", Func: name, Kind: "frame.globals", Label: "globals", Pos: len(fe.items), Goal: goal,
+			Clause: "package-level variables written (transitively): declared " + strings.Join(fe.con.Globals, " ") + "; undeclared: " + strings.Join(extra, " "), SrcPos: e.relPos(fn.Pos()), fe: fe}
+		if len(extra) == 0 {
+			o.Status, o.Solver = "unsat", "syntactic"
+		} else {
+			o.Status, o.Solver = "sat", "syntactic"
+			o.Goal = tBool(false)
+		}
+		fe.obls = append(fe.obls, o)
 	}
 	// package initializers establish the global invariants
 	if fn.Name() == "init" && len(f.rets) > 0 {
